@@ -1166,6 +1166,7 @@ func init() {
 		c02Programs(r)
 		c02ReencodeLimits(r)
 		c02ReencodeGdef(r)
+		c02ReencodeHeader(r)
 		c02Corruptions(r, seeds)
 		sb := 0
 		if !r.Quick() {
